@@ -1105,4 +1105,12 @@ def run(ctx):
     obs += balance_rule(ctx)
     from rules.c03 import float_display_rule
     obs += float_display_rule(ctx, "C02.float")
+    # names the expression parser accepts are pasted raw (`D.name`, `.member`, `{key:`): its identifier tables admit only
+    # characters an ECMAScript name may contain (shared with C15.ident/alphabet)
+    from share import relabel
+    from rules.c15 import wave9_rules as c15_w9
+    obs += relabel(c15_w9(ctx), "C15.ident/alphabet", "C02.ident/parser-alphabet")
+    # an empty sub-tree is not pasted as `()` (shared with C06.runtime/tree-tokens/written-asked)
+    from rules.c06 import wave9_rules as c06_w9
+    obs += relabel(c06_w9(ctx), "C06.runtime/tree-tokens/written-asked", "C02.paths/written-asked")
     return obs
